@@ -85,6 +85,19 @@ def match_finding(findings, sig):
 # pool
 # ------------------------------------------------------------------------------------------------
 _CHECK = None
+import copy as _copy
+import sysloss.components as _C
+_GLOBALS0 = {k: _copy.deepcopy(getattr(_C, k)) for k in ("LIMITS_DEFAULT", "STATE_DEFAULT", "STATE_OFF")}
+import sysloss.diagram as _D
+_GLOBALS0D = {k: _copy.deepcopy(getattr(_D, k)) for k in ("_DEF_CONF", "_DEF_GRADIENT")}
+
+
+def globals_intact():
+    """module-level defaults of the library are shared by every component / diagram: no call may change them."""
+    bad = [k for k, v in _GLOBALS0.items() if getattr(_C, k) != v] + [k for k, v in _GLOBALS0D.items() if getattr(_D, k) != v]
+    for k, v in _GLOBALS0.items():
+        setattr(_C, k, _copy.deepcopy(v)) if k in bad else None
+    return bad
 
 
 def _work(chunk):
@@ -92,6 +105,9 @@ def _work(chunk):
     for idx, case in chunk:
         try:
             r = _CHECK(case)
+            bad = globals_intact()
+            if bad:
+                r.v(("GLOBAL.library-defaults-mutated", ",".join(bad)), "module-level default(s) %s changed while this case ran" % bad)
         except Exception as e:  # the oracle itself crashed: harness error, never a silent pass
             r = Res()
             r.v(("HARNESS", type(e).__name__), traceback.format_exc()[-600:])
